@@ -25,6 +25,7 @@ EXPLANATION = (
     "trimming never edits in place a shard or cview list shared with the wrapped (possibly cached) canvas - otherwise a re-render of the unchanged child has a different size."
     ' Added after seed round 3: (9) FOCUS-FWD - every function that receives `focus` hands it on to each callee that takes it, so render(), rows() and pack() agree on the size of the focused rendering; (10) the Scrollable clamp rule of C20 (an unclamped position trims more rows than exist); (11) ACCUM - the running column of shards_trim_sides and the space budget of Columns.column_widths advance in every continuing iteration; (12) BarGraph.hlines_display collapses h-lines by the row it stores.'
     ' Round 4: (13) LOOPFRESH, (14) segment width measured over its own offsets (C03.13), (15) scroll-bar parts (C20.3).'
+    " Round-4 triage: (17) widget text is cut into lines at the layout's separator only - no str.splitlines() in the widget / layout / canvas layers; split()/count() in a measurement use the newline constant of the layout."
 )
 NOT_DECIDED = (
     "That composed canvases actually have the requested size for all trees/sizes/texts (value semantics of shards, layout and padding); truthfulness of sizing(); wide-character column "
@@ -273,6 +274,40 @@ def rule_hline_dedup(ctx: Ctx) -> RuleResult:
     return rr
 
 
+def rule_line_separator(ctx: Ctx) -> RuleResult:
+    """The text layout starts a new row at "\n" and nowhere else (StandardTextLayout searches for the constant).
+    Every other place that cuts widget text into lines to measure it (Text.pack for fixed sizing) has to use that
+    same separator: str.splitlines() also breaks at \r \x0b \x0c \x1c-\x1e \x85 U+2028 U+2029, so the measured width
+    is that of a fragment and render(()) - which lays the text out at the measured width - wraps the real line."""
+    p = ctx.p
+    rr = RuleResult("SIB", "C01.17", "widget text is cut into lines at the layout's separator only (\"\\n\"): no str.splitlines(), and split()/count() in one measurement use the same constant", floor=2)
+    lay = p.func("urwid.text_layout.StandardTextLayout.calculate_text_segments")
+    seps = {n.value for n in lay.own_nodes() if isinstance(n, ast.Constant) and isinstance(n.value, (str, bytes)) and n.value in ("\n", b"\n")}
+    if "\n" not in seps:
+        raise AnalysisError("StandardTextLayout.calculate_text_segments: the newline constant was not found")
+    rr.inst("layout separator", True, {"layout": short(lay), "separators": sorted(repr(x) for x in seps)})
+    for fi in p.functions.values():
+        mn = fi.module.name
+        if not (mn.startswith("urwid.widget") or mn in ("urwid.text_layout", "urwid.canvas", "urwid.util")):
+            continue
+        cuts = []
+        for c in fi.own_nodes():
+            if not (isinstance(c, ast.Call) and isinstance(c.func, ast.Attribute)):
+                continue
+            if c.func.attr == "splitlines":
+                rr.inst(f"{short(fi)}:{norm(c, 40)}", True)
+                rr.add(finding("SIB", fi, c, f"`{norm(c, 60)}` cuts the text at every Unicode line boundary (\\r, \\x0b, \\x0c, \\x85, U+2028 ...), the layout only at \"\\n\": a line containing one of these is measured as two shorter ones, so pack() reports a width at which the rendering needs more rows than pack() reports", construct=f"splitlines: {norm(c, 60)}"))
+            elif c.func.attr in ("split", "count") and len(c.args) == 1 and isinstance(c.args[0], ast.Constant) and isinstance(c.args[0].value, (str, bytes)) and c.args[0].value in ("\n", b"\n", "\r\n", "\r"):
+                cuts.append(c)
+        if cuts:
+            vals = {c.args[0].value for c in cuts}
+            rr.inst(f"{short(fi)}: line cuts", True, {"function": short(fi), "cuts": [norm(c, 40) for c in cuts]})
+            bad = [c for c in cuts if c.args[0].value not in seps]
+            for c in bad:
+                rr.add(finding("SIB", fi, c, f"`{norm(c, 60)}` uses {c.args[0].value!r} as line separator, the layout uses \"\\n\"", construct=f"other line separator: {norm(c, 60)}"))
+    return rr
+
+
 def run(ctx: Ctx):
     p = ctx.p
     mods = modules(p)
@@ -292,6 +327,7 @@ def run(ctx: Ctx):
         c03_segment_width(ctx),
         _scrollbar_parts(ctx),
         _segment_positive(ctx),
+        rule_line_separator(ctx),
     ]
 
 
@@ -300,6 +336,8 @@ _COLS = "urwid/widget/columns.py"
 _CANV = "urwid/canvas.py"
 _TEXT = "urwid/widget/text.py"
 MUTANTS = [
+    Mut("text-pack-splitlines", _TEXT, "Text.pack", 'text.split("\\n")', "text.splitlines()", "SIB|widget.text.Text.pack"),
+    Mut("twin-text-pack-split-keyword", _TEXT, "Text.pack", 'text.split("\\n")', 'text.split(sep="\\n")', twin=True),
     Mut("hlines-dedup-on-float", "urwid/widget/bar_graph.py", "BarGraph.hlines_display", "            if i == last_i:\n                continue", "            if rh == last_i:\n                continue", "PAIR|widget.bar_graph.BarGraph.hlines_display"),
     Mut("pile-item-rows-from-width", _PILE, "Pile.get_item_rows", "w.pack((), focused)[1]", "w.pack((), focused)[0]", "DIM|widget.pile.Pile.get_item_rows"),
     Mut("pile-pad-sign-flipped", _PILE, "Pile.render", "out.pad_trim_top_bottom(0, size[1] - out.rows())", "out.pad_trim_top_bottom(0, out.rows() - size[1])", "PAIR|widget.pile.Pile.render"),
